@@ -44,6 +44,7 @@ var (
 	corpus  = flag.String("corpus", "", "corpus file: lines '<doc canon>\\t<targets>'")
 	known   = flag.String("known", "", "known_findings.json")
 	workers = flag.Int("workers", 16, "parallel workers")
+	devArg  = flag.String("dev", "cur", "deviation setting of the model the code is compared with: cur (Dev.cur), fixed, or letters s d (for trying a patched tree)")
 )
 
 var rep *lib.Report
@@ -149,30 +150,38 @@ func runAll(c *Case, text []byte, senTxt []byte) []run {
 	}
 	load("whole", nil)
 	load("1-byte", []int{-1})
-	if len(text) <= 24 {
-		for i := 1; i < len(text); i++ {
-			load(fmt.Sprintf("split@%d", i), []int{i})
+	h := fnv.New32a()
+	h.Write(text)
+	h.Write([]byte(targetsText(ts)))
+	k := int(h.Sum32() >> 2)
+	// the whole battery on every case in the thorough tier, on a quarter of the cases otherwise
+	heavy := *tier == "thorough" || k%4 == 0 || c.Stream == "boundary" || c.Stream == "replay" || c.Stream == "corpus"
+	if len(text) > 1 {
+		if heavy && len(text) <= 24 {
+			for i := 1; i < len(text); i++ {
+				load(fmt.Sprintf("split@%d", i), []int{i})
+			}
+		} else {
+			load(fmt.Sprintf("split@%d", 1+k%(len(text)-1)), []int{1 + k%(len(text)-1)})
 		}
-	} else {
-		h := fnv.New32a()
-		h.Write(text)
-		k := int(h.Sum32())
-		load("3-byte", []int{-3})
-		load(fmt.Sprintf("split@%d", 1+k%(len(text)-1)), []int{1 + k%(len(text)-1)})
-		load("7-then-2", []int{7, -2})
+		if heavy {
+			load("3-byte", []int{-3})
+			load("7-then-2", []int{7, -2})
+		}
 	}
 	// a 4096-byte read buffer boundary inside the document: white space in front moves every
-	// position of a short document, a few of a longer one, onto the boundary
+	// position of a short document, one or two of a longer one, onto the boundary
 	var offs []int
-	if len(text) <= 12 {
-		for i := 1; i < len(text); i++ {
-			offs = append(offs, i)
+	if len(text) > 1 {
+		if heavy && len(text) <= 12 {
+			for i := 1; i < len(text); i++ {
+				offs = append(offs, i)
+			}
+		} else if heavy {
+			offs = []int{1 + (k/3)%(len(text)-1), 1 + (k/7)%(len(text)-1)}
+		} else {
+			offs = []int{1 + (k/3)%(len(text)-1)}
 		}
-	} else {
-		h := fnv.New32a()
-		h.Write(text)
-		k := int(h.Sum32() >> 3)
-		offs = []int{1 + k%(len(text)-1), 1 + (k/7)%(len(text)-1)}
 	}
 	for _, o := range offs {
 		padded := append([]byte(strings.Repeat(" ", 4096-o)), text...)
@@ -290,6 +299,7 @@ type caseRun struct {
 	whyOj  string
 	qModel int
 	qSpec  int
+	qOk    int
 }
 
 func prepare(c *Case, reqs *[]string) *caseRun {
@@ -304,10 +314,12 @@ func prepare(c *Case, reqs *[]string) *caseRun {
 	cr.runs = runAll(c, cr.text, cr.senTxt)
 	cr.expOj, cr.okOj, cr.whyOj = expectation(c, cr.text, "oj")
 	cr.expSen, cr.okSen, _ = expectation(c, cr.text, "sen")
-	*reqs = append(*reqs, "run\tcur\t"+cr.tgs+"\t"+cr.doc)
+	*reqs = append(*reqs, "run\t"+*devArg+"\t"+cr.tgs+"\t"+cr.doc)
 	cr.qModel = len(*reqs) - 1
 	*reqs = append(*reqs, "spec\t"+cr.tgs+"\t"+cr.doc)
 	cr.qSpec = len(*reqs) - 1
+	*reqs = append(*reqs, "ok\t"+*devArg+"\t"+cr.tgs)
+	cr.qOk = len(*reqs) - 1
 	return cr
 }
 
@@ -384,6 +396,23 @@ func diffClass(got, want string) string {
 	return "order"
 }
 
+// onlyExtraScalars: want is a subsequence of got and every additional item of got is a scalar.
+func onlyExtraScalars(got, want string) bool {
+	g, w := items(got), items(want)
+	j := 0
+	for _, x := range g {
+		if j < len(w) && w[j] == x {
+			j++
+			continue
+		}
+		v := x[strings.IndexByte(x, '|')+1:]
+		if strings.HasPrefix(v, "[") || strings.HasPrefix(v, "{") {
+			return false
+		}
+	}
+	return j == len(w)
+}
+
 func entryClass(e string) string {
 	if i := strings.IndexByte(e, '/'); i >= 0 {
 		return e[:i]
@@ -399,7 +428,18 @@ func judge(cr *caseRun, ans []string) {
 		add("disagreement", "driver-bad-op", "the driver refused the case", cr.replayOf(nil))
 		return
 	}
-	feats := features(c.Targets)
+	// the constructs with a recorded deviation, taken from the targets that fall outside the
+	// hypothesis of the C17 theorems (okTarget, answered by the driver)
+	var outside []Target
+	for i, tg := range c.Targets {
+		if i >= len(ans[cr.qOk]) || ans[cr.qOk][i] != 't' {
+			outside = append(outside, tg)
+		}
+	}
+	feats := features(outside)
+	if len(outside) > 0 && len(feats) == 0 {
+		add("disagreement", "okTarget-vs-features", "a target is outside the theorem's hypothesis but shows none of the named constructs", cr.replayOf(nil))
+	}
 	dup := c.Doc.hasDupKeys()
 	nontrivial := int64(0)
 	if cr.okOj && cr.expOj != "-" {
@@ -430,6 +470,20 @@ func judge(cr *caseRun, ans []string) {
 	}
 	rep.Count("runs", int64(len(cr.runs)))
 	// the specification's expectation against parse-then-locate
+	// The evaluators do not enter a descent at a scalar that an earlier fragment reached ($.a..
+	// selects nothing when a is a number) although they do at the root and below a container; the
+	// specification lets a descent select the node itself everywhere. Where that is the whole
+	// difference, the specification's expectation is the reference.
+	descentQuirk := func(exp string) bool {
+		return spec != exp && features(c.Targets)["trailing-descent"] && onlyExtraScalars(spec, exp)
+	}
+	if cr.okOj && !dup && descentQuirk(cr.expOj) {
+		rep.Count("evaluator.descent-not-entered-at-scalar", 1)
+		cr.expOj = spec
+	}
+	if cr.okSen && !dup && descentQuirk(cr.expSen) {
+		cr.expSen = spec
+	}
 	if cr.okOj && !dup && spec != cr.expOj {
 		add("disagreement", "spec-vs-locate", "the Lean specification's expected callbacks differ from parse + Locate + First",
 			cr.replayOf(map[string]any{"spec": spec, "locate": cr.expOj}))
@@ -484,16 +538,6 @@ func judge(cr *caseRun, ans []string) {
 				continue
 			}
 		}
-		if dbg := os.Getenv("VERIF_DEBUG"); dbg != "" {
-			fs := []string{}
-			for f := range feats {
-				fs = append(fs, f)
-			}
-			sort.Strings(fs)
-			if strings.Join(fs, ",") == strings.TrimPrefix(dbg, "=") {
-				fmt.Fprintf(os.Stderr, "DBG %s %s | %v | got %s | want %s\n", r.entry, cr.text, cr.replayOf(nil)["targets_jsonpath"], r.res, exp)
-			}
-		}
 		add("violation", "callbacks:"+entryClass(r.entry)+":"+dc, "callbacks differ from parse-then-locate: "+dc, cr.replayOf(info))
 	}
 }
@@ -514,7 +558,7 @@ func processBatch(d *lib.Driver, batch []*Case) error {
 	for _, cr := range runs {
 		if d == nil { // probing without a driver: judge against the expectation only
 			ans = make([]string, len(reqs))
-			ans[cr.qModel], ans[cr.qSpec] = cr.runs[0].res, cr.expOj
+			ans[cr.qModel], ans[cr.qSpec], ans[cr.qOk] = cr.runs[0].res, cr.expOj, ""
 		}
 		judge(cr, ans)
 	}
@@ -607,7 +651,7 @@ func pathMatchCases(d *lib.Driver, full bool) error {
 				return "f"
 			}()
 			all = append(all, pm{tg, p, impl})
-			reqs = append(reqs, "pm\tcur\t"+tg.text()+"\t"+p.text())
+			reqs = append(reqs, "pm\t"+*devArg+"\t"+tg.text()+"\t"+p.text())
 			if len(reqs) >= 4096 {
 				if err := flush(); err != nil {
 					return err
@@ -685,6 +729,10 @@ func main() {
 				ts[i] = t.expr().String()
 			}
 			rep.Sample(map[string]any{"stream": c.Stream, "json": c.Doc.json(nil), "targets": ts})
+		}
+		if mapOrderDependent(c) {
+			rep.Count("skipped.filter-on-object-members-map-order", 1)
+			return
 		}
 		cur = append(cur, c)
 		if len(cur) >= 128 {
